@@ -178,6 +178,9 @@ class MoveMemrefDims(RewritePattern):
                 # This happens when the dim is called on an input argument
                 return True
             if isinstance(memref_op, memref.SubviewOp):
+                # a rank-reducing subview numbers its dimensions differently from its sizes
+                if len(memref_op.result.type.get_shape()) != len(memref_op.static_sizes.get_values()):
+                    return False
                 subview_size = get_subview_dim(memref_op, index)
                 if isinstance(subview_size, int):
                     return True
